@@ -995,3 +995,56 @@ func VerifC01ObjectKeys() {
 	}
 	verifCover("C01/object-keys/end")
 }
+
+// VerifC01OperatorsPerNode: an operator applied to several current nodes gives, in order, what it gives each node on
+// its own: `(N1, N2, N3) | (E)` is the concatenation of `N1 | (E)`, `N2 | (E)`, `N3 | (E)` - also when E's left side
+// yields nothing for some of the nodes (an empty sequence splatted), where yq's operators compute with "nothing" in
+// their own way: whatever that way is, it is per node.
+func VerifC01OperatorsPerNode() {
+	nodes := []string{".a", ".e", ".m", "[.b]", "[]"}
+	exprs := []string{".[] // 7", ".[] + 1", ".[] == 1", ".[] and true", ".[] or false", ".[] < 2", "[.[] // 7]", ".[] != 1", "(.[] | select(. > 1)) // 9", "1 + .[]", "7 // .[]"}
+	e := exprs[verifChoice("expr", len(exprs))]
+	n := 2 + verifChoice("nodes", 2)
+	x0, x1, b, mk := verifStrN("x0", 1, "03"), verifStrN("x1", 1, "03"), verifStrN("b", 1, "03"), verifStrN("mk", 1, "03")
+	doc := func() *CandidateNode {
+		return vDoc(vMap(vStr("a"), vSeq(vInt(x0), vInt(x1)), vStr("b"), vInt(b), vStr("m"), vMap(vStr("k"), vInt(mk)), vStr("e"), vSeq()))
+	}
+	all := "("
+	want := ""
+	okAll := true
+	for i := 0; i < n; i++ {
+		nd := nodes[verifChoice("n"+verifItoa(int64(i)), len(nodes))]
+		if i > 0 {
+			all += ", "
+		}
+		all += nd
+		res, err := vEval(vParse(nd+" | ("+e+")"), doc())
+		if err != nil {
+			okAll = false
+			continue
+		}
+		if d := vDumpList(res); d != "" {
+			if want != "" {
+				want += " | "
+			}
+			want += d
+		}
+	}
+	all += ") | (" + e + ")"
+	res, err := vEval(vParse(all), doc())
+	label := " expr=" + e
+	if !okAll {
+		verifCover("C01/per-node/error-expected")
+		verifAssert(err != nil, "C01/error-for-one-node-not-reported"+label)
+		return
+	}
+	verifAssert(err == nil, "C01/unexpected-error per-node"+label)
+	if err != nil {
+		return
+	}
+	got := vDumpList(res)
+	verifObserve("got", got)
+	verifObserve("want", want)
+	verifAssert(verifEqStr(got, want), "C01/operator-over-several-nodes-differs-from-node-by-node"+label)
+	verifCover("C01/per-node/end")
+}
